@@ -41,7 +41,7 @@ def check(case) -> Outcome:
     logging.disable(logging.CRITICAL)
     out = Outcome()
     spec = sc.normalise(case['prog'])
-    has_cancel = P.has_kind(spec, ('mapcancel', 'subcancel'))
+    has_cancel = P.has_kind(spec, ('mapcancel', 'subcancel', 'forget'))
     P.reset()
     sim = Sim(case['topo'], case['sched'], policy=case.get('policy'),
               rseed=case['rseed'])
